@@ -193,11 +193,7 @@ def oracle_C02(an, check_c09=False):
         c = an.scn.cmds[cmd]
         complete = bool(codes)
         if complete and accepts(an.scn, fl, cmd, ty):
-            if ty == "run" and not any(e[0] == "H" and e[1] == "x" and e[2] == cmd for e in evs):
-                v.append("line %r selects command %d (%s) for RUN, which is available, but its run handler was not invoked (answer %r)" % (t, cmd, c.name, codes[0]))
-            if ty == "write" and "w" in c.h and not vars_accessible(c, 2) and len(cl["args"]) <= ccap - 1 and \
-                    not any(e[0] == "H" and e[1] == "w" and e[2] == cmd for e in evs):
-                v.append("line %r selects command %d (%s) for WRITE, which is available, but its write handler was not invoked (answer %r)" % (t, cmd, c.name, codes[0]))
+            v += served_violations(an, t, cmd, ty, cl, evs, codes, ccap)
         if check_c09:
             form_ok = accepts(an.scn, fl, cmd, ty)
             if not form_ok:
@@ -205,6 +201,27 @@ def oracle_C02(an, check_c09=False):
                     v.append("line %r: form %s of command %d is unavailable (only_test/handler-less) but callbacks ran: %r" % (t, ty, cmd, evs))
                 if codes and codes[0] != ERRP:
                     v.append("line %r: unavailable form answered %r" % (t, codes[0]))
+    return v
+
+
+def served_violations(an, t, cmd, ty, cl, evs, codes, ccap):
+    """a selected command whose requested form is available (`accepts`) must actually be served: where the
+    first thing the dispatcher does for that form is to call the command's handler, the handler is called"""
+    v = []
+    c = an.scn.cmds[cmd]
+    if ty == "run" and not any(e[0] == "H" and e[1] == "x" and e[2] == cmd for e in evs):
+        v.append("line %r selects command %d (%s) for RUN, which is available, but its run handler was not invoked (answer %r)" % (t, cmd, c.name, codes[0]))
+    if ty == "write" and "w" in c.h and not vars_accessible(c, 2) and len(cl["args"]) <= ccap - 1 and \
+            not any(e[0] == "H" and e[1] == "w" and e[2] == cmd for e in evs):
+        v.append("line %r selects command %d (%s) for WRITE, which is available, but its write handler was not invoked (answer %r)" % (t, cmd, c.name, codes[0]))
+    # READ with a read handler and nothing readable among the variables: `NAME=` is formatted and the handler decides
+    if ty == "read" and "r" in c.h and not vars_accessible(c, 1) and len(c.name) + 1 < ccap and \
+            not any(e[0] == "H" and e[1] == "r" and e[2] == cmd for e in evs):
+        v.append("line %r selects command %d (%s) for READ, which is available through its read handler, but the handler was not invoked (answer %r)" % (t, cmd, c.name, codes[0]))
+    # TEST with a test handler and no variables and no description: `NAME=` is formatted and the handler decides
+    if ty == "test" and "t" in c.h and not c.vars and c.desc is None and len(c.name) + 1 < ccap and \
+            not any(e[0] == "H" and e[1] == "t" and e[2] == cmd for e in evs):
+        v.append("line %r selects command %d (%s) for TEST, which is available through its test handler, but the handler was not invoked (answer %r)" % (t, cmd, c.name, codes[0]))
     return v
 
 
@@ -1331,6 +1348,13 @@ def oracle_C19(an):
     if an.uns_hold:
         return None
     v = []
+    # every invocation of a test handler is handed the complete automatically formatted line (all variables,
+    # in order, then the description) - also on the rounds after NEXT / DATA_NEXT
+    for e in seq(an, {"Hc", "Hu"}):
+        if e[1] == "t" and 0 <= e[2] < len(an.scn.cmds):
+            exps = [expected_test_text(an.scn.cmds[e[2]], nl) for nl in (b"\n", b"\r\n")]
+            if exps[0] is not None and bytes(e[4]) not in [bytes(x) for x in exps]:
+                v.append("test handler of command %d handed %r, the complete automatic line is %r" % (e[2], bytes(e[4]), exps[0]))
     ccap = an.scn.buf if an.scn.uns >= 0 else an.scn.buf // 2
     ftl = flags_timeline(an)
     for (t, a, b) in line_spans(an):
@@ -1354,6 +1378,11 @@ def oracle_C19(an):
         nl = b"\r\n" if cr else b"\n"
         units = [u for u in an.units if u.fsm == "c" and a <= u.start < b and u.complete]
         hs = [e for li in range(a, b) for e in an.ev[li] if e[0] == "H" and e[3] == "c"]
+        # what the list advertises is what the dispatcher accepts: the list is held against `accepts` below, and
+        # here every request whose form `accepts` says is available must actually be served
+        codes_l = [bytes(u.payload) for u in an.codes() if a <= u.start < b]
+        if codes_l and accepts(an.scn, fl, cmd, cl["type"]):
+            v += served_violations(an, t, cmd, cl["type"], cl, cmd_events_in(an, a, b), codes_l, ccap)
         if cl["type"] == "test" and not hs:
             exp = expected_test_text(c, nl)
             data = [u for u in units if not u.is_code() and not u.raw]
